@@ -152,6 +152,12 @@ def oracle_likelihood(case):
     want, margin = ref_loglik(vd, u[0])
     require(not np.isnan(l1), 'get_likelihood(u) is NaN for the interior point u=%r (reference log-likelihood %r)' % (u[0].tolist(), want), tag='likelihood-nan')
     conditioned = 'well-conditioned' if margin >= 1e-6 else 'ill-conditioned'
+    # the pair-copula functions are only specified (and checked, C06-C08) for |tau| <= 0.8; beyond that Frank's density loses
+    # eps*exp(theta*min(u,v)) digits (3.5e-6 at theta=33), so the sharp comparison is restricted to that domain
+    limits = {'clayton': 8.0, 'gumbel': 5.0, 'frank': 18.2}
+    if any(abs(float(e['theta'])) > limits[fam_of(e['name'])] for t in vd['trees'] for e in t['edges']):
+        conditioned = 'theta-outside-pair-copula-domain'
+        margin = 0.0
     if want is not None and np.isfinite(want):
         if margin >= 1e-6:
             # every propagated conditional CDF stays 1e-6 away from 0/1: float64 must reproduce the exact recursion
